@@ -296,6 +296,26 @@ def frame (rows : List Rec) : List Str × List Rec :=
   let cols := columnsOf rows
   (cols, rows.map fun r => cols.map fun c => (c, (dget r c).getD .null))
 
+/-- `str(i)` -/
+def intText (i : Int) : Str := (toString i).toList
+
+/-- does column `c` hold both an int and a str somewhere -/
+def mixedCol (rows : List Rec) (c : Str) : Bool :=
+  rows.any (fun r => match dget r c with | some (.int _) => true | _ => false) &&
+  rows.any (fun r => match dget r c with | some (.str _) => true | _ => false)
+
+/-- `pl.DataFrame(data_list, infer_schema_length=None)`: polars columns are typed; a column holding
+    both ints and strings becomes a string column (the ints as their decimal text). Assumed
+    behaviour of the external library, exercised by the tie; the theorems are about `frame`
+    (they apply to polars frames whose columns are type-homogeneous, where the two coincide). -/
+def polarsFrame (rows : List Rec) : List Str × List Rec :=
+  let f := frame rows
+  let mixed := f.1.filter (mixedCol f.2)
+  (f.1, f.2.map fun r => r.map fun kv =>
+    match kv.2 with
+    | .int i => if mixed.contains kv.1 then (kv.1, Val.str (intText i)) else kv
+    | _ => kv)
+
 def rowPath (sep : Char) (pc : Str) (r : Rec) : Option Str :=
   match dget r pc with
   | some (.str s) => some (stripC sep s)
